@@ -1,5 +1,8 @@
 import DendroModel.Model.C04
 import DendroModel.Model.C04State
+import DendroModel.Model.C04Root
+import DendroModel.Model.C04Diffs
+import DendroModel.Gen.C04Kernels
 import DendroModel.Model.C07
 import DendroModel.Props.C01
 import DendroModel.Theory.C04Bridge
@@ -1942,5 +1945,731 @@ theorem reseed_one_edge_is_invertT (i : Nat) (x : Option Nat) (l : Option Frac) 
 example : C07.invertTo 1 exU = invertT 0 none none none [] 1 none none none
     [.node 2 (some 0) none none [], .node 3 (some 1) none none []] [.node 4 (some 2) none none [], .node 5 (some 3) none none []] :=
   reseed_one_edge_is_invertT 0 none none none [] 1 none none none _ _ (by decide) rfl
+
+end DendroModel.C04
+
+/-! # round ext-3: tie A bridges (`Gen/C04Kernels.lean`), the square root, the per-split intermediate result -/
+
+namespace DendroModel.C04.Aux
+open DendroModel DendroModel.C04 DendroModel.C04Kernels
+
+/-- the value a generated `Src` stands for, given the two lengths (with `None` read as 0) -/
+def srcVal (a b : Rat) : Src → Rat
+  | .first => a
+  | .second => b
+  | .zero => 0
+
+/-- one generated loop outcome as a value: a crash has no counterpart in the model (outer `none`), a refusal is `some none` -/
+def outVal (a b : Rat) : Out → Option (Option (Rat × Rat))
+  | .refuse => some none
+  | .crash => none
+  | .pair x y => some (some (srcVal a b x, srcVal a b y))
+
+theorem kdedup_eq : ∀ l : List Int, kdedup l = dedup l
+  | [] => rfl
+  | x :: xs => by simp only [kdedup, dedup, kdedup_eq xs]
+
+theorem kabs_eq (x : Rat) : kabs x = absR x := rfl
+
+theorem sum_map_congr {α : Type} (f g : α → Rat) : ∀ l : List α, (∀ x, f x = g x) → (l.map f).sum = (l.map g).sum := by
+  intro l h
+  have : f = g := funext h
+  rw [this]
+
+end DendroModel.C04.Aux
+
+namespace DendroModel.C04
+open DendroModel DendroModel.C04.Aux DendroModel.C04Kernels
+
+/-! ## tie A: the kernels regenerated from `treecompare.py` (`Gen/C04Kernels.lean`) are the model's -/
+
+/-- `symmetric_difference` as written in the source is the model's `rf` of the pair `false_positives_and_negatives` returns,
+    called on the same two trees in the same order with the flag handed on -/
+theorem gen_rf (a b : List Int) :
+    (rf a b : Int) = rfOf ((fpfn a b).1 : Int) ((fpfn a b).2 : Int) ∧ rfArgsInOrder = true ∧ rfPassesFlag = true := by
+  refine ⟨?_, by decide, by decide⟩
+  simp only [rf, rfOf]
+  push_cast
+  ring
+
+/-- the pair `false_positives_and_negatives` returns in the source is the model's `fpfn` (orientation of both set differences
+    and the order of the two counts) -/
+theorem gen_fpfn (ref cmp : List Int) : fpfnK ref cmp = fpfn ref cmp := by
+  simp [fpfnK, fpfn, kdiff, kdedup_eq]
+
+/-- the list `find_missing_bipartitions` builds in the source is the model's `missing` (tree walked, polarity, order) -/
+theorem gen_missing (ref cmp : List Int) : missingK ref cmp = missing ref cmp := by
+  simp [missingK, missing]
+
+/-- `dist_fn` of `weighted_robinson_foulds_distance` in the source is the model's `wrfOf`, with no outer square root -/
+theorem gen_wrf (ds : List (Rat × Rat)) :
+    wrfOf ds = (ds.map (fun p => wrfTerm p.1 p.2)).sum ∧ wrfOuterSqrt = false := by
+  refine ⟨?_, by decide⟩
+  unfold wrfOf
+  apply sum_map_congr
+  intro p
+  simp only [wrfTerm, kabs_eq, absR_eq] <;> first | rfl | exact abs_sub_comm _ _ | (congr 1; ring)
+
+/-- `dist_fn` of `euclidean_distance` in the source is the square root of the model's `euclidSqOf` -/
+theorem gen_euclid (ds : List (Rat × Rat)) :
+    euclidSqOf ds = (ds.map (fun p => euclidTerm p.1 p.2)).sum ∧ euclidOuterSqrt = true := by
+  refine ⟨?_, by decide⟩
+  unfold euclidSqOf
+  apply sum_map_congr
+  intro p
+  simp only [euclidTerm, kpow] <;> ring
+
+/-- one iteration of the first loop of `_get_length_diffs`, as decided by the source, is the model's `entry`: never a crash; refused
+    exactly when the model refuses; otherwise the same pair of lengths -/
+theorem gen_entry (m2 : List (Int × EdgeRec)) (p : Int × EdgeRec) :
+    outVal (p.2.len.getD 0) (((lookup m2 p.1).bind (·.len)).getD 0)
+      (loop1 p.2.len.isNone p.2.isRoot (lookup m2 p.1).isSome
+        (match lookup m2 p.1 with | some e => e.len.isNone | none => false)
+        (match lookup m2 p.1 with | some e => e.isRoot | none => false))
+    = some (entry m2 p) := by
+  obtain ⟨k, ⟨s, l, r⟩⟩ := p
+  unfold entry
+  cases h : lookup m2 k with
+  | none => cases l <;> cases r <;> simp [loop1, outVal, srcVal]
+  | some e =>
+    obtain ⟨s2, l2, r2⟩ := e
+    cases l <;> cases r <;> cases l2 <;> cases r2 <;> simp [loop1, outVal, srcVal, EdgeRec.bad]
+
+/-- one iteration of the second loop, as decided by the source, is what the model's `pass2` appends -/
+theorem gen_pass2 (m1 m2 : List (Int × EdgeRec)) :
+    (pass2 m1 m2).map (fun d => some (some d))
+      = (m2.filter (fun p => (lookup m1 p.1).isNone)).map (fun p => outVal 0 (p.2.len.getD 0) (loop2 p.2.len.isNone p.2.isRoot)) := by
+  unfold pass2
+  rw [List.map_map]
+  apply List.map_congr_left
+  rintro ⟨k, ⟨s, l, r⟩⟩ _
+  cases l <;> cases r <;> simp [loop2, outVal, srcVal]
+
+/-- the re-encoding protocol of the three functions that carry it, as decided by the source, is the model's `prepare`
+    (for both trees alike), and `_get_length_diffs` with default arguments re-encodes both trees whatever their state -/
+theorem gen_prepare (u : Bool) (o : TreeObj) :
+    (o.prepare u = if prepA_fpfn u o.enc.isNone then o.encode else o)
+    ∧ (o.prepare u = if prepB_fpfn u o.enc.isNone then o.encode else o)
+    ∧ (o.prepare u = if prepA_missing u o.enc.isNone then o.encode else o)
+    ∧ (o.prepare u = if prepB_missing u o.enc.isNone then o.encode else o)
+    ∧ (∀ n, prepA_diffs false n = true ∧ prepB_diffs false n = true) := by
+  obtain ⟨ns, r, c, e⟩ := o
+  refine ⟨?_, ?_, ?_, ?_, by decide⟩ <;>
+    cases u <;> cases e <;> simp [TreeObj.prepare, prepA_fpfn, prepB_fpfn, prepA_missing, prepB_missing]
+
+/-- the namespace identity check, as decided by the source: each of the three functions refuses exactly when the two namespace
+    objects differ, which is when the model's calls refuse -/
+theorem gen_namespace (u : Bool) (a b : TreeObj) :
+    ((fpfnCall u a b).1 = none ↔ nsRefuses_fpfn (a.ns == b.ns) = true)
+    ∧ ((missingCall u a b).1 = none ↔ nsRefuses_missing (a.ns == b.ns) = true)
+    ∧ ((weightedCall a b).1 = none ↔ nsRefuses_diffs (a.ns == b.ns) = true) := by
+  cases hb : (a.ns == b.ns)
+  · have h : a.ns ≠ b.ns := by simpa using hb
+    simp [fpfnCall, missingCall, weightedCall, nsRefuses_fpfn, nsRefuses_missing, nsRefuses_diffs, h]
+  · have h : a.ns = b.ns := by simpa using hb
+    simp [fpfnCall, missingCall, weightedCall, nsRefuses_fpfn, nsRefuses_missing, nsRefuses_diffs, h]
+
+/-- a function whose value does not depend on the order of its two trees (`rf_symm`, `wrf_symm`, `euclid_symm`): an alias may
+    hand the trees on in either order -/
+def Aux.symmetricCallee (f : String) : Bool :=
+  f == "symmetric_difference" || f == "weighted_robinson_foulds_distance" || f == "euclidean_distance"
+
+/-- the delegating entry points of the source: each returns the value of the function the harness judges it against, on the same
+    two trees (`Tree.x(other)` = `treecompare.x(self, other)`; in the same order unless the callee is symmetric), flags handed on
+    where they exist -/
+theorem gen_aliases :
+    aliases.map (fun a => (a.1, a.2.1, decide (a.2.2.1 = .inOrder) || symmetricCallee a.2.1, a.2.2.2)) = [
+      ("unweighted_robinson_foulds_distance", "symmetric_difference", true, [("is_bipartitions_updated", "is_bipartitions_updated")]),
+      ("robinson_foulds_distance", "weighted_robinson_foulds_distance", true, [("edge_weight_attr", "edge_weight_attr")]),
+      ("Tree.symmetric_difference", "symmetric_difference", true, []),
+      ("Tree.false_positives_and_negatives", "false_positives_and_negatives", true, []),
+      ("Tree.robinson_foulds_distance", "weighted_robinson_foulds_distance", true, []),
+      ("Tree.euclidean_distance", "euclidean_distance", true, [])] := by
+  decide
+
+example : outVal 3 5 (loop1 false false true false false) = some (some (3, 5)) := by decide
+example : outVal 3 0 (loop1 false false true true false) = some none := by decide
+
+end DendroModel.C04
+
+namespace DendroModel.C04.Aux
+open DendroModel DendroModel.C04
+
+theorem isqrtF_spec : ∀ f n : Nat, n ≤ f → isqrtF f n ^ 2 ≤ n ∧ n < (isqrtF f n + 1) ^ 2
+  | 0, n, h => by
+    have : n = 0 := by omega
+    subst this; simp [isqrtF]
+  | f + 1, n, h => by
+    unfold isqrtF
+    by_cases h2 : n < 2
+    · simp only [h2, if_true]
+      interval_cases n <;> simp
+    · simp only [h2, if_false]
+      have ih := isqrtF_spec f (n / 4) (by omega)
+      generalize isqrtF f (n / 4) = s0 at ih ⊢
+      have h4 : 4 * (n / 4) ≤ n := Nat.mul_div_le n 4
+      have h4' : n < 4 * (n / 4) + 4 := by omega
+      obtain ⟨i1, i2⟩ := ih
+      by_cases ht : (2 * s0 + 1) * (2 * s0 + 1) ≤ n
+      · simp only [ht, if_true]
+        constructor
+        · nlinarith
+        · nlinarith
+      · simp only [ht, if_false]
+        constructor
+        · nlinarith
+        · nlinarith
+
+theorem isqrt_spec (n : Nat) : isqrt n ^ 2 ≤ n ∧ n < (isqrt n + 1) ^ 2 := isqrtF_spec n n le_rfl
+
+end DendroModel.C04.Aux
+
+namespace DendroModel.C04
+open DendroModel DendroModel.C04.Aux
+
+/-- **the fixed-point root the driver prints brackets the real square root**: for `w ≥ 0`,
+    `rootFix k w / 2^k ≤ √w < (rootFix k w + 1) / 2^k` -/
+theorem rootFix_bracket (k : Nat) (w : Rat) (h0 : 0 ≤ w) :
+    ((rootFix k w : ℕ) : ℝ) / 2 ^ k ≤ Real.sqrt (w : ℝ) ∧ Real.sqrt (w : ℝ) < (((rootFix k w : ℕ) : ℝ) + 1) / 2 ^ k := by
+  have hnum : 0 ≤ w.num := Rat.num_nonneg.mpr h0
+  have hdpos : (0 : ℝ) < (w.den : ℝ) := by exact_mod_cast w.den_pos
+  have hA : ((w.num.toNat : ℕ) : ℝ) = (w.num : ℝ) := by
+    have : ((w.num.toNat : ℕ) : ℤ) = w.num := Int.toNat_of_nonneg hnum
+    exact_mod_cast congrArg (fun z : ℤ => (z : ℝ)) this
+  have hw : (w : ℝ) = ((w.num.toNat : ℕ) : ℝ) / (w.den : ℝ) := by rw [hA]; exact Rat.cast_def w
+  unfold rootFix
+  set A := w.num.toNat with hAdef
+  set d := w.den with hd
+  set N := A * 4 ^ k / d with hN
+  obtain ⟨s1, s2⟩ := isqrt_spec N
+  set s := isqrt N with hs
+  have n1 : N * d ≤ A * 4 ^ k := Nat.div_mul_le_self _ _
+  have n2 : A * 4 ^ k < d * (N + 1) := Nat.lt_mul_div_succ _ w.den_pos
+  have r1 : ((N : ℕ) : ℝ) * d ≤ A * 4 ^ k := by exact_mod_cast n1
+  have r2 : ((A : ℕ) : ℝ) * 4 ^ k < d * (N + 1) := by exact_mod_cast n2
+  have q1 : ((s : ℕ) : ℝ) ^ 2 ≤ N := by exact_mod_cast s1
+  have q2 : ((N : ℕ) : ℝ) + 1 ≤ (s + 1) ^ 2 := by exact_mod_cast Nat.succ_le_of_lt s2
+  have p2 : (0 : ℝ) < 2 ^ k := by positivity
+  have p4 : ((2 : ℝ) ^ k) ^ 2 = 4 ^ k := by rw [← pow_mul, mul_comm, pow_mul]; norm_num
+  have hwk : (w : ℝ) * 4 ^ k = ((A : ℕ) : ℝ) * 4 ^ k / d := by rw [hw]; ring
+  have lo : ((N : ℕ) : ℝ) ≤ (w : ℝ) * 4 ^ k := by rw [hwk, le_div_iff₀ hdpos]; exact r1
+  have hi : (w : ℝ) * 4 ^ k < (N : ℝ) + 1 := by rw [hwk, div_lt_iff₀ hdpos]; linarith
+  constructor
+  · apply Real.le_sqrt_of_sq_le
+    rw [div_pow, p4, div_le_iff₀ (by positivity)]
+    linarith
+  · rw [Real.sqrt_lt' (by positivity), div_pow, p4, lt_div_iff₀ (by positivity)]
+    linarith
+
+example : rootFix 4 2 = 22 ∧ isqrt 1000000 = 1000 ∧ isqrt 99 = 9 := by decide
+
+end DendroModel.C04
+
+namespace DendroModel.C04.Aux
+open DendroModel DendroModel.C04
+
+/-- `euclidean_distance` itself: the real square root of the exact sum of squares the model computes (`gen_euclid`: that is how
+    the source composes it — `math.sqrt` around the sum); `none` = refused -/
+noncomputable def euclid (m1 m2 : List (Int × EdgeRec)) : Option ℝ := (euclidSq m1 m2).map (fun w => Real.sqrt ((w : ℚ) : ℝ))
+
+theorem euclid_some {m1 m2 : List (Int × EdgeRec)} {x : ℝ} (h : euclid m1 m2 = some x) :
+    ∃ w : Rat, euclidSq m1 m2 = some w ∧ x = Real.sqrt ((w : ℚ) : ℝ) := by
+  unfold euclid at h
+  rw [Option.map_eq_some_iff] at h
+  obtain ⟨w, hw, rfl⟩ := h
+  exact ⟨w, hw, rfl⟩
+
+end DendroModel.C04.Aux
+
+namespace DendroModel.C04
+open DendroModel DendroModel.C04.Aux
+
+/-! ## the Euclidean distance itself (square root taken in ℝ) -/
+
+/-- Euclidean distance = L2 norm of the per-split length differences, an absent split counting as length 0 -/
+theorem euclid_eq_l2 (m1 m2 : List (Int × EdgeRec)) (hn1 : (keys m1).Nodup) (hn2 : (keys m2).Nodup) (x : ℝ)
+    (h : euclid m1 m2 = some x) :
+    x = Real.sqrt (∑ k ∈ (keys m1).toFinset ∪ (keys m2).toFinset, (((lenAt m1 k : ℚ) : ℝ) - ((lenAt m2 k : ℚ) : ℝ)) ^ 2) := by
+  obtain ⟨w, hw, rfl⟩ := euclid_some h
+  rw [euclidSq_eq_l2sq m1 m2 hn1 hn2 w hw]
+  push_cast
+  rfl
+
+/-- symmetric in value and in whether it is defined -/
+theorem euclid_symm (m1 m2 : List (Int × EdgeRec)) (hn1 : (keys m1).Nodup) (hn2 : (keys m2).Nodup) :
+    euclid m1 m2 = euclid m2 m1 := by
+  unfold euclid; rw [euclidSq_symm m1 m2 hn1 hn2]
+
+/-- non-negative; zero exactly between equal split → length functions (in particular between a tree and itself) -/
+theorem euclid_zero_iff (m1 m2 : List (Int × EdgeRec)) (hn1 : (keys m1).Nodup) (hn2 : (keys m2).Nodup) (x : ℝ)
+    (h : euclid m1 m2 = some x) : 0 ≤ x ∧ (x = 0 ↔ ∀ k, lenAt m1 k = lenAt m2 k) := by
+  obtain ⟨w, hw, rfl⟩ := euclid_some h
+  refine ⟨Real.sqrt_nonneg _, ?_⟩
+  rw [(euclidSq_nonneg m1 m2 hn1 hn2 w hw).2]
+  exact (dist_zero_iff m1 m2 hn1 hn2).2 w hw
+
+theorem euclid_self (m : List (Int × EdgeRec)) (hn : (keys m).Nodup) (x : ℝ) (h : euclid m m = some x) : x = 0 :=
+  ((euclid_zero_iff m m hn hn x h).2).mpr (fun _ => rfl)
+
+/-- triangle inequality, on the distances themselves -/
+theorem euclid_root_triangle (m1 m2 m3 : List (Int × EdgeRec)) (hn1 : (keys m1).Nodup) (hn2 : (keys m2).Nodup)
+    (hn3 : (keys m3).Nodup) (a b c : ℝ) (hab : euclid m1 m2 = some a) (hbc : euclid m2 m3 = some b)
+    (hac : euclid m1 m3 = some c) : c ≤ a + b := by
+  obtain ⟨wa, ha, rfl⟩ := euclid_some hab
+  obtain ⟨wb, hb, rfl⟩ := euclid_some hbc
+  obtain ⟨wc, hc, rfl⟩ := euclid_some hac
+  exact euclid_triangle m1 m2 m3 hn1 hn2 hn3 wa wb wc ha hb hc
+
+/-- depends on the first tree only through its split → length function -/
+theorem euclid_congr (m1 m1' m2 : List (Int × EdgeRec)) (hn1 : (keys m1).Nodup) (hn1' : (keys m1').Nodup)
+    (hn2 : (keys m2).Nodup) (hk : ∀ x, x ∈ keys m1 ↔ x ∈ keys m1') (hl : ∀ x, lenAt m1 x = lenAt m1' x)
+    (x x' : ℝ) (h : euclid m1 m2 = some x) (h' : euclid m1' m2 = some x') : x = x' := by
+  obtain ⟨w, hw, rfl⟩ := euclid_some h
+  obtain ⟨w', hw', rfl⟩ := euclid_some h'
+  rw [euclidSq_congr m1 m1' m2 hn1 hn1' hn2 hk hl w w' hw hw']
+
+/-- whatever is proved about the exact squares transfers to the distances: equal squares give equal distances, a zero square a
+    zero distance -/
+theorem euclid_of_sq (a a' b b' : List (Int × EdgeRec)) :
+    ((∀ w w', euclidSq a b = some w → euclidSq a' b' = some w' → w = w') →
+        ∀ x x', euclid a b = some x → euclid a' b' = some x' → x = x')
+    ∧ ((∀ w, euclidSq a b = some w → w = 0) → ∀ x, euclid a b = some x → x = 0) := by
+  constructor
+  · intro hp x x' hx hx'
+    obtain ⟨w, hw1, rfl⟩ := euclid_some hx
+    obtain ⟨w', hw2, rfl⟩ := euclid_some hx'
+    rw [hp w w' hw1 hw2]
+  · intro hz x hx
+    obtain ⟨w, hw1, rfl⟩ := euclid_some hx
+    rw [hz w hw1]; simp
+
+/-- **re-drawing a rooted tree changes no Euclidean distance** (children reordered, unifurcations inserted with the length split):
+    `dist_redraw_rooted` on the distance itself, against any third tree in both argument positions, and 0 between the drawings -/
+theorem euclid_redraw_rooted (r2 : Option Bool) (t t' u : T) (h : Redraw t t')
+    (hg : Hier.Good (T.toH t)) (h0 : T.mask t ≠ 0) (hw : WFT t)
+    (hg' : Hier.Good (T.toH t')) (h0' : T.mask t' ≠ 0) (hw' : WFT t') :
+    (∀ x x', euclid (edgeMap (edgeRecs (some true) t)) (edgeMap (edgeRecs r2 u)) = some x →
+        euclid (edgeMap (edgeRecs (some true) t')) (edgeMap (edgeRecs r2 u)) = some x' → x = x')
+    ∧ (∀ x x', euclid (edgeMap (edgeRecs r2 u)) (edgeMap (edgeRecs (some true) t)) = some x →
+        euclid (edgeMap (edgeRecs r2 u)) (edgeMap (edgeRecs (some true) t')) = some x' → x = x')
+    ∧ (∀ x, euclid (edgeMap (edgeRecs (some true) t)) (edgeMap (edgeRecs (some true) t')) = some x → x = 0) := by
+  obtain ⟨_, _, k3, k4, _, k6⟩ := dist_redraw_rooted r2 t t' u h hg h0 hw hg' h0' hw'
+  exact ⟨(euclid_of_sq _ _ _ _).1 k3, (euclid_of_sq _ _ _ _).1 k4, (euclid_of_sq (edgeMap (edgeRecs (some true) t)) (edgeMap (edgeRecs (some true) t)) (edgeMap (edgeRecs (some true) t')) (edgeMap (edgeRecs (some true) t'))).2 k6⟩
+
+/-- **re-drawing a tree that is not rooted changes no Euclidean distance** (any sequence of child reorderings, unifurcation
+    insertions and seed moves): `dist_redraw_unrooted` on the distance itself -/
+theorem euclid_redraw_unrooted (r r' r2 : Option Bool) (hr : r ≠ some true) (hr' : r' ≠ some true) (t t' u : T) (h : URedraw t t')
+    (hc : t.cs.length ≠ 2) (hg : Hier.Good (T.toH t)) (h0 : T.mask t ≠ 0) (hw : WFT t) (hdeg : 3 ≤ (T.sup t).cs.length)
+    (hc' : t'.cs.length ≠ 2) (hg' : Hier.Good (T.toH t')) (hw' : WFT t') (hdeg' : 3 ≤ (T.sup t').cs.length) :
+    (∀ x x', euclid (edgeMap (edgeRecs r t)) (edgeMap (edgeRecs r2 u)) = some x →
+        euclid (edgeMap (edgeRecs r' t')) (edgeMap (edgeRecs r2 u)) = some x' → x = x')
+    ∧ (∀ x x', euclid (edgeMap (edgeRecs r2 u)) (edgeMap (edgeRecs r t)) = some x →
+        euclid (edgeMap (edgeRecs r2 u)) (edgeMap (edgeRecs r' t')) = some x' → x = x')
+    ∧ (∀ x, euclid (edgeMap (edgeRecs r t)) (edgeMap (edgeRecs r' t')) = some x → x = 0) := by
+  obtain ⟨_, _, _, k4, k5, _, k7⟩ := dist_redraw_unrooted r r' r2 hr hr' t t' u h hc hg h0 hw hdeg hc' hg' hw' hdeg'
+  exact ⟨(euclid_of_sq _ _ _ _).1 k4, (euclid_of_sq _ _ _ _).1 k5, (euclid_of_sq (edgeMap (edgeRecs r t)) (edgeMap (edgeRecs r t)) (edgeMap (edgeRecs r' t')) (edgeMap (edgeRecs r' t'))).2 k7⟩
+
+/-- **the number the driver prints brackets the Euclidean distance**: with `w` the exact square and `s = rootFix k w` the printed
+    fixed-point root, `s / 2^k ≤ euclidean distance < (s + 1) / 2^k` -/
+theorem euclid_bracket (m1 m2 : List (Int × EdgeRec)) (hn1 : (keys m1).Nodup) (hn2 : (keys m2).Nodup) (k : Nat) (w : Rat)
+    (h : euclidSq m1 m2 = some w) :
+    ∃ x, euclid m1 m2 = some x ∧ ((rootFix k w : ℕ) : ℝ) / 2 ^ k ≤ x ∧ x < (((rootFix k w : ℕ) : ℝ) + 1) / 2 ^ k := by
+  refine ⟨Real.sqrt ((w : ℚ) : ℝ), by simp [euclid, h], ?_⟩
+  exact rootFix_bracket k w (euclidSq_nonneg m1 m2 hn1 hn2 w h).1
+
+example : (euclid (edgeMap (edgeRecs (some true) exA)) (edgeMap (edgeRecs (some true) exC))).isSome = true := by
+  unfold euclid; rw [Option.isSome_map]; decide
+
+end DendroModel.C04
+
+namespace DendroModel.C04.Aux
+open DendroModel DendroModel.C04
+
+theorem pass1K_values (m2 : List (Int × EdgeRec)) : ∀ l : List (Int × EdgeRec),
+    (pass1K m2 l).map (List.map (fun t => t.2)) = pass1 m2 l
+  | [] => by simp [pass1K, pass1]
+  | p :: rest => by
+    have ih := pass1K_values m2 rest
+    simp only [pass1K, pass1]
+    cases h1 : entry m2 p with
+    | none => simp
+    | some d =>
+      cases h2 : pass1K m2 rest with
+      | none => rw [h2] at ih; simp at ih; simp [← ih]
+      | some ks => rw [h2] at ih; simp at ih; simp [← ih]
+
+theorem pass1K_some (m1 m2 : List (Int × EdgeRec)) (hn : (keys m1).Nodup) : ∀ (l : List (Int × EdgeRec)),
+    (∀ p ∈ l, p ∈ m1) → ∀ ks, pass1K m2 l = some ks → ks = l.map (fun p => (p.1, lenAt m1 p.1, lenAt m2 p.1))
+  | [], _, ks, h => by simp [pass1K] at h; simp [h]
+  | p :: rest, hsub, ks, h => by
+    simp only [pass1K] at h
+    cases h1 : entry m2 p with
+    | none => rw [h1] at h; cases h
+    | some d =>
+      cases h2 : pass1K m2 rest with
+      | none => rw [h1, h2] at h; cases h
+      | some ks' =>
+        rw [h1, h2] at h
+        simp only [Option.some.injEq] at h
+        rw [← h, entry_some m1 m2 hn p (hsub p (by simp)) d h1,
+          pass1K_some m1 m2 hn rest (fun q hq => hsub q (by simp [hq])) ks' h2]
+        simp
+
+end DendroModel.C04.Aux
+
+namespace DendroModel.C04
+open DendroModel DendroModel.C04.Aux
+
+/-- the keyed intermediate result the driver prints is `lengthDiffs` (what `wrf` / `euclidSq` sum over) with the split kept -/
+theorem lengthDiffsK_values (m1 m2 : List (Int × EdgeRec)) :
+    (lengthDiffsK m1 m2).map (List.map (fun t => t.2)) = lengthDiffs m1 m2 := by
+  unfold lengthDiffsK lengthDiffs
+  rw [← pass1K_values m2 m1]
+  cases pass1K m2 m1 with
+  | none => rfl
+  | some ks => simp [pass2K, pass2]
+
+/-- **the per-split dictionary of `_get_length_diffs`**: defined exactly when the distances are; then it has exactly one entry for
+    every split of either tree, and the entry of split `k` is (length of `k` in tree 1, length of `k` in tree 2), an absent split
+    counting as 0 -/
+theorem lengthDiffsK_spec (m1 m2 : List (Int × EdgeRec)) (hn1 : (keys m1).Nodup) (hn2 : (keys m2).Nodup) :
+    ((lengthDiffsK m1 m2).isSome ↔ (wrf m1 m2).isSome)
+    ∧ ∀ l, lengthDiffsK m1 m2 = some l →
+        (l.map (·.1)).Nodup ∧ (∀ k, k ∈ l.map (·.1) ↔ k ∈ keys m1 ∨ k ∈ keys m2)
+        ∧ ∀ t ∈ l, t.2 = (lenAt m1 t.1, lenAt m2 t.1) := by
+  constructor
+  · have := lengthDiffsK_values m1 m2
+    unfold wrf
+    rw [← this]
+    cases lengthDiffsK m1 m2 <;> simp
+  · intro l h
+    unfold lengthDiffsK at h
+    rw [Option.map_eq_some_iff] at h
+    obtain ⟨k1, hk1, rfl⟩ := h
+    have e1 := pass1K_some m1 m2 hn1 m1 (fun p hp => hp) k1 hk1
+    subst e1
+    have hf : ∀ p ∈ m2.filter (fun p => (lookup m1 p.1).isNone), p ∈ m2 ∧ p.1 ∉ keys m1 := by
+      intro p hp
+      obtain ⟨hp2, hp1⟩ := List.mem_filter.mp hp
+      refine ⟨hp2, ?_⟩
+      rw [← lookup_none_iff]
+      cases hl : lookup m1 p.1 with
+      | none => rfl
+      | some e => rw [hl] at hp1; simp at hp1
+    have hk2 : (pass2K m1 m2).map (·.1) = (m2.filter (fun p => (lookup m1 p.1).isNone)).map (·.1) := by
+      unfold pass2K; rw [List.map_map]; rfl
+    have hk1' : (m1.map (fun p => (p.1, lenAt m1 p.1, lenAt m2 p.1))).map (·.1) = keys m1 := by
+      unfold keys; rw [List.map_map]; rfl
+    refine ⟨?_, ?_, ?_⟩
+    · rw [List.map_append, hk1', hk2, List.nodup_append]
+      refine ⟨hn1, ?_, ?_⟩
+      · exact (hn2.sublist (List.Sublist.map _ List.filter_sublist))
+      · intro a ha b hb hab
+        subst hab
+        obtain ⟨p, hp, rfl⟩ := List.mem_map.mp hb
+        exact (hf p hp).2 ha
+    · intro k
+      rw [List.map_append, hk1', hk2, List.mem_append]
+      constructor
+      · rintro (h | h)
+        · exact Or.inl h
+        · obtain ⟨p, hp, rfl⟩ := List.mem_map.mp h
+          exact Or.inr (List.mem_map.mpr ⟨p, (hf p hp).1, rfl⟩)
+      · rintro (h | h)
+        · exact Or.inl h
+        · by_cases hin : k ∈ keys m1
+          · exact Or.inl hin
+          · right
+            obtain ⟨p, hp, rfl⟩ := List.mem_map.mp h
+            refine List.mem_map.mpr ⟨p, List.mem_filter.mpr ⟨hp, ?_⟩, rfl⟩
+            rw [(lookup_none_iff m1 p.1).mpr hin]; rfl
+    · intro t ht
+      rcases List.mem_append.mp ht with h | h
+      · obtain ⟨p, _, rfl⟩ := List.mem_map.mp h; rfl
+      · unfold pass2K at h
+        obtain ⟨p, hp, rfl⟩ := List.mem_map.mp h
+        obtain ⟨hp2, hp1⟩ := hf p hp
+        simp only
+        rw [lenAt_zero_of_not_mem m1 p.1 hp1]
+        unfold lenAt
+        rw [lookup_of_mem hn2 hp2]
+
+example : (lengthDiffsK (edgeMap (edgeRecs (some true) exA)) (edgeMap (edgeRecs (some true) exC))).isSome = true := by decide
+
+end DendroModel.C04
+
+/-! ## round ext-3: the basal collapse — weighted distances of a tree that is not rooted, drawn with a bifurcating seed -/
+
+namespace DendroModel.C04.Aux
+open DendroModel DendroModel.C04
+
+theorem wft_cs : ∀ t : T, WFT t → WFTL t.cs
+  | .node _ _ _ _ _, h => by simp only [WFT] at h; exact h.2
+theorem wft_len : ∀ t : T, WFT t → OWF t.len
+  | .node _ _ _ _ _, h => by simp only [WFT] at h; exact h.1
+theorem wft_withLen : ∀ (t : T) (l : Option Frac), WFT t → OWF l → WFT (t.withLen l)
+  | .node _ _ _ _ _, l, h, hl => by simp only [T.withLen, WFT] at h ⊢; exact ⟨hl, h.2⟩
+theorem wftL_append : ∀ a b : List T, WFTL (a ++ b) ↔ WFTL a ∧ WFTL b
+  | [], b => by simp [WFTL]
+  | c :: a, b => by simp [WFTL, wftL_append a b, and_assoc]
+
+/-- opening up a basal bifurcation keeps lengths well formed -/
+theorem wft_collapse (t : T) (hw : WFT t) : WFT t.collapseBasal := by
+  match t, hw with
+  | .node i x l s [a, b], hw =>
+    simp only [WFT, WFTL] at hw
+    obtain ⟨hl, ha, hb, _⟩ := hw
+    simp only [T.collapseBasal]
+    by_cases h2 : b.cs.length ≥ 2
+    · rw [if_pos h2]
+      simp only [WFT, WFTL]
+      exact ⟨hl, wft_withLen a _ ha (owf_addLen _ _ (wft_len a ha) (wft_len b hb)), wft_cs b hb⟩
+    · rw [if_neg h2]
+      by_cases h1 : a.cs.length ≥ 2
+      · rw [if_pos h1]
+        simp only [WFT]
+        refine ⟨hl, (wftL_append _ _).mpr ⟨wft_cs a ha, ?_⟩⟩
+        simp only [WFTL]
+        exact ⟨wft_withLen b _ hb (owf_addLen _ _ (wft_len b hb) (wft_len a ha)), trivial⟩
+      · rw [if_neg h1]; simp only [WFT, WFTL]; exact ⟨hl, ha, hb, trivial⟩
+  | .node i x l s [], hw => simpa [T.collapseBasal] using hw
+  | .node i x l s [a], hw => simpa [T.collapseBasal] using hw
+  | .node i x l s (a :: b :: c :: rest), hw => simpa [T.collapseBasal] using hw
+
+theorem exists_split_iff {A B : List Nat} (f : Nat → Int) (x y : Nat) (hB : ∀ m, m ∈ B ↔ m ∈ A ∨ m = y) (hx : x ∈ A)
+    (hxy : f x = f y) (z : Int) : (∃ m ∈ A, f m = z) ↔ (∃ m ∈ B, f m = z) := by
+  constructor
+  · rintro ⟨m, hm, rfl⟩; exact ⟨m, (hB m).mpr (Or.inl hm), rfl⟩
+  · rintro ⟨m, hm, rfl⟩
+    rcases (hB m).mp hm with h | h
+    · exact ⟨m, h, rfl⟩
+    · subst h; exact ⟨x, hx, hxy⟩
+
+/-- **opening up a basal bifurcation keeps the per-split length table and the split set of the tree as drawn**: the dissolved
+    edge and the edge that absorbs its length are the two basal edges, which induce one and the same split -/
+theorem collapse_inv (t : T) (hg : Hier.Good (T.toH t)) (h0 : t.mask ≠ 0) (hw : WFT t) :
+    (∀ k, usum t.collapseBasal k = usum t k) ∧ (∀ z, USet t.collapseBasal z ↔ USet t z) := by
+  match t, hg, h0, hw with
+  | .node i x l s [a, b], hg, h0, hw =>
+    have hH : T.toH (.node i x l s [a, b]) = .node [T.toH a, T.toH b] := rfl
+    rw [hH] at hg
+    simp only [Hier.Good, Hier.GoodL, Hier.maskL, Nat.or_zero, C01.Aux.toH_mask] at hg
+    obtain ⟨_, _, dab, _, _, _, _⟩ := hg
+    simp only [WFT, WFTL] at hw
+    obtain ⟨_, ha, hb, _⟩ := hw
+    have hm := C01.Bridge.collapse_mask (.node i x l s [a, b])
+    have hL : T.mask (.node i x l s [a, b]) = a.mask ||| b.mask := by simp [T.mask, T.maskL]
+    have hF : C01.splitOf false (T.mask (.node i x l s [a, b])) a.mask = C01.splitOf false (T.mask (.node i x l s [a, b])) b.mask :=
+      splitOf_invert _ _ _ hL dab h0
+    have hFb : ∀ k, (C01.splitOf false (T.mask (.node i x l s [a, b])) a.mask == k)
+        = (C01.splitOf false (T.mask (.node i x l s [a, b])) b.mask == k) := by intro k; rw [hF]
+    unfold usum USet
+    rw [hm]
+    by_cases h2 : b.cs.length ≥ 2
+    · have hc : T.collapseBasal (.node i x l s [a, b]) = .node i x l s (a.withLen (addLen a.len b.len) :: b.cs) := by
+        simp only [T.collapseBasal, if_pos h2, tryAdd]
+      rw [hc] at hm ⊢
+      constructor
+      · intro k
+        rw [edgesPost_node, edgesPost_node]
+        simp only [edgesPostL, List.append_nil]
+        rw [edgesPost_eq false (a.withLen _), withLen_cs, withLen_len, withLen_mask', edgesPost_eq false a, edgesPost_eq false b]
+        simp only [psum_append, psum_single, qlen_addLen _ _ (wft_len a ha) (wft_len b hb), hm, hFb k]
+        split <;> ring
+      · intro z
+        have e1 : T.masksPost (.node i x l s (a.withLen (addLen a.len b.len) :: b.cs))
+            = T.masksPostL a.cs ++ a.mask :: (T.masksPostL b.cs ++ [T.mask (.node i x l s [a, b])]) := by
+          rw [masksPost_eq, hm]; simp only [T.cs, T.masksPostL]
+          rw [masksPost_eq (a.withLen _), withLen_cs, withLen_mask']
+          try simp only [List.append_assoc, List.cons_append, List.nil_append]
+          try rfl
+        have e2 : T.masksPost (.node i x l s [a, b])
+            = T.masksPostL a.cs ++ a.mask :: (T.masksPostL b.cs ++ [b.mask, T.mask (.node i x l s [a, b])]) := by
+          rw [masksPost_eq]; simp only [T.cs, T.masksPostL]
+          rw [masksPost_eq a, masksPost_eq b]
+          try simp only [List.append_assoc, List.cons_append, List.nil_append]
+          try rfl
+        rw [e1, e2]
+        exact exists_split_iff _ a.mask b.mask (by intro m; simp; tauto) (by simp) hF z
+    · by_cases h1 : a.cs.length ≥ 2
+      · have hc : T.collapseBasal (.node i x l s [a, b]) = .node i x l s (a.cs ++ [b.withLen (addLen b.len a.len)]) := by
+          simp only [T.collapseBasal, if_neg h2, if_pos h1, tryAdd]
+        rw [hc] at hm ⊢
+        constructor
+        · intro k
+          rw [edgesPost_node, edgesPost_node, edgesPostL_append]
+          simp only [edgesPostL, List.append_nil]
+          rw [edgesPost_eq false (b.withLen _), withLen_cs, withLen_len, withLen_mask', edgesPost_eq false a, edgesPost_eq false b]
+          simp only [psum_append, psum_single, qlen_addLen _ _ (wft_len b hb) (wft_len a ha), hm, hFb k]
+          split <;> ring
+        · intro z
+          have e1 : T.masksPost (.node i x l s (a.cs ++ [b.withLen (addLen b.len a.len)]))
+              = T.masksPostL a.cs ++ (T.masksPostL b.cs ++ [b.mask, T.mask (.node i x l s [a, b])]) := by
+            rw [masksPost_eq, hm]; simp only [T.cs, masksPostL_append', T.masksPostL]
+            rw [masksPost_eq (b.withLen _), withLen_cs, withLen_mask']
+            try simp only [List.append_assoc, List.cons_append, List.nil_append]
+            try rfl
+          have e2 : T.masksPost (.node i x l s [a, b])
+              = T.masksPostL a.cs ++ a.mask :: (T.masksPostL b.cs ++ [b.mask, T.mask (.node i x l s [a, b])]) := by
+            rw [masksPost_eq]; simp only [T.cs, T.masksPostL]
+            rw [masksPost_eq a, masksPost_eq b]
+            try simp only [List.append_assoc, List.cons_append, List.nil_append]
+            try rfl
+          rw [e1, e2]
+          exact exists_split_iff _ b.mask a.mask (by intro m; simp; tauto) (by simp) hF.symm z
+      · have hc : T.collapseBasal (.node i x l s [a, b]) = .node i x l s [a, b] := by
+          simp only [T.collapseBasal, if_neg h2, if_neg h1]
+        rw [hc]
+        exact ⟨fun _ => rfl, fun _ => Iff.rfl⟩
+  | .node i x l s [], _, _, _ => exact ⟨fun _ => rfl, fun _ => Iff.rfl⟩
+  | .node i x l s [a], _, _, _ => exact ⟨fun _ => rfl, fun _ => Iff.rfl⟩
+  | .node i x l s (a :: b :: c :: rest), _, _, _ => exact ⟨fun _ => rfl, fun _ => Iff.rfl⟩
+
+end DendroModel.C04.Aux
+
+namespace DendroModel.C04.Aux
+open DendroModel DendroModel.C04
+
+theorem collapse_of_ne_two (t : T) (h : t.cs.length ≠ 2) : t.collapseBasal = t := by
+  match t, h with
+  | .node i x l s [], _ => rfl
+  | .node i x l s [a], _ => rfl
+  | .node i x l s [a, b], h => exact absurd rfl h
+  | .node i x l s (a :: b :: c :: rest), _ => rfl
+
+/-- default encoding of a tree that is not rooted: open up the basal bifurcation (if there is one), then suppress unifurcations -/
+theorem encodeTree_collapse (r : Option Bool) (hr : r ≠ some true) (t : T) :
+    C01.encodeTree r true true t = T.sup t.collapseBasal := by
+  unfold C01.encodeTree
+  by_cases hc : t.cs.length = 2
+  · simp [hc, hr]
+  · simp [hc, collapse_of_ne_two t hc]
+
+theorem sup_cs_length_two (t : T) (h : t.cs.length = 2) : (T.sup t).cs.length = 2 := by
+  match t, h with
+  | .node i x l s cs, h =>
+    simp only [T.cs] at h
+    rw [sup_node_many i x l s cs (by omega)]
+    simp only [T.cs, supL_length]; exact h
+
+/-- everything the weighted theorems need about a tree that is not rooted whose seed has ≥ 3 children AFTER ENCODING, whatever
+    the drawing (a bifurcating seed included): the driver's edge records are those of the collapsed drawing, which is not
+    bifurcating, well formed, and has the same per-split table and split set as the tree as drawn -/
+theorem enc_facts (r : Option Bool) (hr : r ≠ some true) (t : T)
+    (hdeg : 3 ≤ (C01.encodeTree r true true t).cs.length) :
+    edgeRecs r t = edgeRecs r t.collapseBasal ∧ t.collapseBasal.cs.length ≠ 2 ∧ 3 ≤ (T.sup t.collapseBasal).cs.length := by
+  have henc := encodeTree_collapse r hr t
+  rw [henc] at hdeg
+  have hc' : t.collapseBasal.cs.length ≠ 2 := by
+    intro h2; rw [sup_cs_length_two _ h2] at hdeg; omega
+  refine ⟨?_, hc', hdeg⟩
+  unfold edgeRecs
+  rw [henc, encodeTree_sup r t.collapseBasal (Or.inr hc')]
+
+end DendroModel.C04.Aux
+
+namespace DendroModel.C04
+open DendroModel DendroModel.C04.Aux
+
+/-- the driver's split → length function of a well-formed tree that is not rooted IS the per-split table of the tree as drawn —
+    `lenAt_eq_usum` without its restriction on the drawing: the seed may be bifurcating as drawn (`collapse_basal_bifurcation`
+    dissolves one basal edge and adds its length to the other, and the two induce the same split); what is needed is ≥ 3 children
+    at the seed after encoding (otherwise: known finding `basal-bifurcation-survives-encoding`) -/
+theorem lenAt_eq_usum_any_seed (r : Option Bool) (hr : r ≠ some true) (t : T)
+    (hg : Hier.Good (T.toH t)) (h0 : T.mask t ≠ 0) (hw : WFT t) (hdeg : 3 ≤ (C01.encodeTree r true true t).cs.length) (k : Int) :
+    lenAt (edgeMap (edgeRecs r t)) k = usum t k := by
+  obtain ⟨hrec, hc', hd'⟩ := enc_facts r hr t hdeg
+  rw [hrec, lenAt_eq_usum r hr t.collapseBasal hc' (good_collapse t hg) (by rw [C01.Bridge.collapse_mask]; exact h0)
+    (wft_collapse t hw) hd' k]
+  exact (collapse_inv t hg h0 hw).1 k
+
+/-- … and its split set is the set of normalised splits of the tree as drawn -/
+theorem mem_splits_any_seed (r : Option Bool) (hr : r ≠ some true) (t : T)
+    (hg : Hier.Good (T.toH t)) (h0 : T.mask t ≠ 0) (hw : WFT t) (hdeg : 3 ≤ (C01.encodeTree r true true t).cs.length) (z : Int) :
+    z ∈ (edgeRecs r t).map (·.split) ↔ USet t z := by
+  obtain ⟨hrec, hc', _⟩ := enc_facts r hr t hdeg
+  have hb : (r == some true) = false := by
+    cases r with
+    | none => rfl
+    | some b => cases b <;> simp_all
+  rw [hrec, mem_splits_iff r t.collapseBasal (Or.inr hc'), hb]
+  exact (collapse_inv t hg h0 hw).2 z
+
+/-- **re-drawing a tree that is not rooted changes no weighted distance — any drawing, a bifurcating seed included**:
+    `dist_redraw_unrooted` with the restriction "seed not bifurcating as drawn" removed from both end drawings.  `t'` is reached
+    from `t` by any sequence of child reorderings, unifurcation insertions / removals (length split) and seed moves (`URedraw`);
+    both end drawings are well formed and their seeds have ≥ 3 children after encoding (`hdeg`, `hdeg'` — exactly the trees outside
+    the known finding `basal-bifurcation-survives-encoding`).  Then the split → length functions coincide; wRF, Euclid² against any
+    third tree agree in both argument positions whenever both are defined; both are 0 between the two drawings whenever defined. -/
+theorem dist_redraw_unrooted_any_seed (r r' r2 : Option Bool) (hr : r ≠ some true) (hr' : r' ≠ some true) (t t' u : T)
+    (h : URedraw t t')
+    (hg : Hier.Good (T.toH t)) (h0 : T.mask t ≠ 0) (hw : WFT t) (hdeg : 3 ≤ (C01.encodeTree r true true t).cs.length)
+    (hg' : Hier.Good (T.toH t')) (hw' : WFT t') (hdeg' : 3 ≤ (C01.encodeTree r' true true t').cs.length) :
+    (∀ k, lenAt (edgeMap (edgeRecs r t)) k = lenAt (edgeMap (edgeRecs r' t')) k)
+    ∧ (∀ w w', wrf (edgeMap (edgeRecs r t)) (edgeMap (edgeRecs r2 u)) = some w →
+        wrf (edgeMap (edgeRecs r' t')) (edgeMap (edgeRecs r2 u)) = some w' → w = w')
+    ∧ (∀ w w', wrf (edgeMap (edgeRecs r2 u)) (edgeMap (edgeRecs r t)) = some w →
+        wrf (edgeMap (edgeRecs r2 u)) (edgeMap (edgeRecs r' t')) = some w' → w = w')
+    ∧ (∀ w w', euclidSq (edgeMap (edgeRecs r t)) (edgeMap (edgeRecs r2 u)) = some w →
+        euclidSq (edgeMap (edgeRecs r' t')) (edgeMap (edgeRecs r2 u)) = some w' → w = w')
+    ∧ (∀ w w', euclidSq (edgeMap (edgeRecs r2 u)) (edgeMap (edgeRecs r t)) = some w →
+        euclidSq (edgeMap (edgeRecs r2 u)) (edgeMap (edgeRecs r' t')) = some w' → w = w')
+    ∧ (∀ w, wrf (edgeMap (edgeRecs r t)) (edgeMap (edgeRecs r' t')) = some w → w = 0)
+    ∧ (∀ w, euclidSq (edgeMap (edgeRecs r t)) (edgeMap (edgeRecs r' t')) = some w → w = 0) := by
+  have hm := uredraw_mask h
+  have h0' : T.mask t' ≠ 0 := by rw [← hm]; exact h0
+  obtain ⟨htab, hset⟩ := uredraw_inv h h0
+  have hl : ∀ k, lenAt (edgeMap (edgeRecs r t)) k = lenAt (edgeMap (edgeRecs r' t')) k := by
+    intro k
+    rw [lenAt_eq_usum_any_seed r hr t hg h0 hw hdeg k, lenAt_eq_usum_any_seed r' hr' t' hg' h0' hw' hdeg' k]; exact htab k
+  have hk : ∀ z, z ∈ keys (edgeMap (edgeRecs r t)) ↔ z ∈ keys (edgeMap (edgeRecs r' t')) := by
+    intro z
+    rw [keys_edgeMap, keys_edgeMap, mem_splits_any_seed r hr t hg h0 hw hdeg, mem_splits_any_seed r' hr' t' hg' h0' hw' hdeg']
+    exact hset z
+  have n1 := nodup_edgeMap (edgeRecs r t)
+  have n1' := nodup_edgeMap (edgeRecs r' t')
+  have n2 := nodup_edgeMap (edgeRecs r2 u)
+  refine ⟨hl, ?_, ?_, ?_, ?_, ?_, ?_⟩
+  · intro w w' hw1 hw2; exact wrf_congr _ _ _ n1 n1' n2 hk hl w w' hw1 hw2
+  · intro w w' hw1 hw2
+    rw [wrf_symm _ _ n2 n1] at hw1; rw [wrf_symm _ _ n2 n1'] at hw2
+    exact wrf_congr _ _ _ n1 n1' n2 hk hl w w' hw1 hw2
+  · intro w w' hw1 hw2; exact euclidSq_congr _ _ _ n1 n1' n2 hk hl w w' hw1 hw2
+  · intro w w' hw1 hw2
+    rw [euclidSq_symm _ _ n2 n1] at hw1; rw [euclidSq_symm _ _ n2 n1'] at hw2
+    exact euclidSq_congr _ _ _ n1 n1' n2 hk hl w w' hw1 hw2
+  · intro w hw1; exact ((dist_zero_iff _ _ n1 n1').1 w hw1).mpr hl
+  · intro w hw1; exact ((dist_zero_iff _ _ n1 n1').2 w hw1).mpr hl
+
+/-- … and no Euclidean distance (`dist_redraw_unrooted_any_seed` on the distance itself) -/
+theorem euclid_redraw_unrooted_any_seed (r r' r2 : Option Bool) (hr : r ≠ some true) (hr' : r' ≠ some true) (t t' u : T)
+    (h : URedraw t t')
+    (hg : Hier.Good (T.toH t)) (h0 : T.mask t ≠ 0) (hw : WFT t) (hdeg : 3 ≤ (C01.encodeTree r true true t).cs.length)
+    (hg' : Hier.Good (T.toH t')) (hw' : WFT t') (hdeg' : 3 ≤ (C01.encodeTree r' true true t').cs.length) :
+    (∀ x x', euclid (edgeMap (edgeRecs r t)) (edgeMap (edgeRecs r2 u)) = some x →
+        euclid (edgeMap (edgeRecs r' t')) (edgeMap (edgeRecs r2 u)) = some x' → x = x')
+    ∧ (∀ x x', euclid (edgeMap (edgeRecs r2 u)) (edgeMap (edgeRecs r t)) = some x →
+        euclid (edgeMap (edgeRecs r2 u)) (edgeMap (edgeRecs r' t')) = some x' → x = x')
+    ∧ (∀ x, euclid (edgeMap (edgeRecs r t)) (edgeMap (edgeRecs r' t')) = some x → x = 0) := by
+  obtain ⟨_, _, _, k4, k5, _, k7⟩ := dist_redraw_unrooted_any_seed r r' r2 hr hr' t t' u h hg h0 hw hdeg hg' hw' hdeg'
+  exact ⟨(euclid_of_sq _ _ _ _).1 k4, (euclid_of_sq _ _ _ _).1 k5,
+    (euclid_of_sq (edgeMap (edgeRecs r t)) (edgeMap (edgeRecs r t)) (edgeMap (edgeRecs r' t')) (edgeMap (edgeRecs r' t'))).2 k7⟩
+
+/-- non-vacuity: `exW = ((t0,t1),(t2,t3))` is drawn with a BIFURCATING seed; moving the seed to its first child gives
+    `(t0,t1,[(t2,t3)])` (a seed of degree 3 over a unifurcation).  Every hypothesis of `dist_redraw_unrooted_any_seed` holds for
+    this pair, and `exW` is outside the scope of `dist_redraw_unrooted` (`hc` fails). -/
+example :
+    let ds : List T := [.node 2 (some 0) none none [], .node 3 (some 1) none none []]
+    let post : List T := [.node 6 none none none [.node 4 (some 2) none none [], .node 5 (some 3) none none []]]
+    let fin : T := invertT 0 none none none [] 1 none none none ds post
+    URedraw exW fin ∧ exW.cs.length = 2 ∧ Hier.Good (T.toH exW) ∧ T.mask exW ≠ 0 ∧ WFT exW
+      ∧ 3 ≤ (C01.encodeTree (some false) true true exW).cs.length
+      ∧ Hier.Good (T.toH fin) ∧ WFT fin ∧ 3 ≤ (C01.encodeTree none true true fin).cs.length := by
+  refine ⟨?_, by decide, ?_, by decide, ?_, by decide, ?_, ?_, by decide⟩
+  · exact URedraw.move 0 none none none [] 1 none none none _ _ (by simp) (by simp) (by decide)
+  · simp [exW, T.toH, T.toHL, Hier.Good, Hier.GoodL, Hier.mask, Hier.maskL]
+  · simp [exW, WFT, WFTL, OWF]
+  · simp [invertT, T.toH, T.toHL, Hier.Good, Hier.GoodL, Hier.mask, Hier.maskL]
+  · simp [invertT, WFT, WFTL, OWF]
 
 end DendroModel.C04
